@@ -62,7 +62,7 @@ def _init_state(ctx, f):
 
 
 # ---------------------------------------------------------------------------
-@rule("TS1", ["C06", "C01", "C05"])
+@rule("TS1", ["C06", "C01", "C05", "C04"])
 def ts1(ctx, pid):
     """Every node visited by a mutation is scheduled for pruning (TS1); every node absorbed by a merge is
     scheduled (TS2); the pending-prune increment is guarded exactly by is_pruning and 'node is stored by hash' (PENDG);
